@@ -6,6 +6,7 @@ CONSTANTS
   BinOps <- MC_OpsWide
   Maps <- MC_MapsFew
   OnePairs <- MC_PairsAll
+  Routes = {}
   MaxUnits = 3
   MinUnits = 0
   MaxDepth = 1
